@@ -35,6 +35,9 @@ ASSUMPTIONS = ["dense references scipy.linalg.expm / numpy.linalg.eig(h) / lstsq
 
 # observed on the unchanged tree (12 000 cases): |expmv - ref| / (tol * amplification) <= 0.61
 BOUND_FACTOR = 10
+# open known finding: expmv(hermitian=True) over long times (|t| ||F|| >= 100, dozens of sub-steps): the unre-orthogonalised Lanczos basis loses
+# orthogonality once the vector collapses onto the dominant eigenvectors; results miss tol by orders of magnitude and some calls take minutes
+KNOWN_LANCZOS = 'expmv:lanczos_long_time_inaccurate'
 
 
 def cx(v):
@@ -203,6 +206,10 @@ def draw_expmv(data, tier):
         desc['return_info'] = True
         if desc['start'] in ('eigvec', 'two_eigvecs'):
             desc['start'] = 'random'
+        if desc['tau'] >= 100:
+            # open known finding (see KNOWN_LANCZOS): hermitian=True with |t| ||F|| >= 100 is excluded from the search by construction;
+            # the long-time regime is explored through the Arnoldi path
+            desc['hflag'] = False
     return desc
 
 
@@ -251,6 +258,8 @@ def execute_expmv(desc):
             raise Violation('expmv:not_normalised', f'normalize=True returned a vector of norm {np.linalg.norm(a)}')
     err = np.linalg.norm(a - ref) / nref
     bound = (BOUND_FACTOR * desc['tol'] + 1e-11) * max(1.0, amp)
+    if err > bound and hflag and desc['tau'] >= 100:
+        raise Violation(KNOWN_LANCZOS, f'|expmv - expm(tF)v| / |expm(tF)v| = {err:.3e} > {bound:.3e} (hermitian=True, tol = {desc["tol"]}, |t| ||F|| = {desc["tau"]}, ncv = {desc["ncv"]})')
     if err > bound:
         raise Violation('expmv:inaccurate' + (':hermitian' if hflag else ':arnoldi'),
                         f'|expmv - expm(tF)v| / |expm(tF)v| = {err:.3e} > {bound:.3e} (tol = {desc["tol"]}, |t| ||F|| = {desc["tau"]}, ncv = {desc["ncv"]}, amplification {amp:.2e})')
